@@ -267,5 +267,13 @@ func shiftLongIntegerPart(v string) string {
 		}
 		e = n
 	}
+	// (an exponent this far out decides the value whatever the digits are; bounding it keeps
+	// the sum below inside the integers)
+	const expBound = 1 << 40
+	if e > expBound {
+		e = expBound
+	} else if e < -expBound {
+		e = -expBound
+	}
 	return sign + "0." + intPart + frac + "e" + strconv.Itoa(e+len(intPart))
 }
